@@ -1,3 +1,4 @@
+import NgoVerif.Proofs.C10multi
 import NgoVerif.Generated.Tables
 import NgoVerif.Meta.Meta2
 import NgoVerif.Meta.Compose
@@ -180,5 +181,12 @@ own declaration lists, under the parameter names the class declares, and replace
 theorem C09_wiring :
     Tables.API_ARGS.lookup "unused" = some (["input_", "input_predicates", "output_predicates"], "input_", "input_") ∧
     Tables.CTOR_PARAMS.lookup "unused" = some ["prg", "input_predicates", "output_predicates"] := by decide
+
+open Proofs.C10multi in
+/-- **unfolding a copy rule at positive body literals**: `remove_single_copies` replaces `a(σV̄)` by the body of the single rule `a(V̄) :- B.`; while that rule is still in the program the two programs have the SAME stable models (`Proofs/C10multi.fold_all_existing` read left to right); deleting the rule afterwards is `C09_removal_*`. Uses under negation, in conditions and in aggregate elements are not covered by this statement (findings D31, D35 live there). -/
+theorem C09_copy_unfold_positive (P : Sem.Params) (hpers : Sem.AggPersistent P) (c : Canon) (ps : List Place) (hne : 0 < ps.length)
+    (hps : ∀ p ∈ ps, PlaceOk c p) (ctx : Prog) (hctx : CtxAvoids c ctx) (T : Sem.Interp) :
+    Sem.Stable (Sem.stdParams P) (after c ps ctx) T ↔ Sem.Stable (Sem.stdParams P) (beforeWith c ps ctx) T :=
+  fold_all_existing P hpers c ps hne hps ctx hctx T
 
 end NgoVerif
